@@ -112,7 +112,7 @@ CHECKS = {
         'technique': 'exhaustive product user names x store operations, each traced at system-call level and replayed in the FS model; path-confinement oracle on every path-taking system call; in-process frontends with the same names',
         'text': 'Every name of the adversarial alphabet is passed to every store operation in a traced driver on a tree with a sibling store and decoys: each path-taking system call must be <base>, <base>/.tmp/* or <base>/<valid name>.user|.admin, nothing outside the base changes, invalid names have no effect and never authenticate (library and every frontend).',
         'note': 'Names are a fixed adversarial list; lexical path normalisation (no symlinks in the tree).',
-        'parts': [TracePart('paths', 'c03'), RwTest('frontends', 'cmd/whawty-auth', ['harness/agentseq'], AGENT_SEQ, '^TestC03$')],
+        'parts': [TracePart('paths', 'c03'), GoBin('namesweep', 'harness/c03'), RwTest('frontends', 'cmd/whawty-auth', ['harness/agentseq'], AGENT_SEQ, '^TestC03$')],
     },
     'C08': {
         'level': 'model_checking',
